@@ -13,6 +13,27 @@ CHECKS = {
         note="Trusts refsem (expansion into signed products), the independent taco codec, and that dyadic inputs make every association order exact. Refusals are not failures; memory faults are judged by C05.",
         design="3/C01",
     ),
+    "C02": dict(
+        level="exploration",
+        technique="runtime monitoring: independent structure validator over raw output arrays (abstract-machine heap with exact lengths + init bits; cffi arrays of JIT results), follow-up uses as cross-check",
+        text="Every output of evaluate / assemble+compute kernels (~6k quick) with a compressed level is decoded from its raw arrays and validated against the property's contract; JIT results are additionally pickled, converted, compared and fed to another kernel.",
+        note="Trusts taco.validate (written from the property text). Over-long arrays are allowed; array lengths on real heaps are invisible (sanitizer legs of C05 see a too-short one).",
+        design="3/C02",
+    ),
+    "C03": dict(
+        level="exploration",
+        technique="runtime monitoring: stored-prefix sets of each compressed output level vs structural support from an independent reference walk; branch counters show the written-flag gate was exercised",
+        text="For ~6k sparse-output executions (evaluate and assemble kernels, a JIT sample) biased to empty operands/rows/contractions, no compressed level stores a prefix outside the structural support.",
+        note="Support is computed by refsem over the inputs' stored sets in their own formats; the check is an upper bound (sparser outputs are fine).",
+        design="3/C03",
+    ),
+    "C05": dict(
+        level="exploration",
+        technique="runtime monitoring / sanitizers: IR abstract machine (bounds, init bits, ownership, int32 range, scope, step budget) on all three kernel kinds x capacities; emitted C under gcc ASan+UBSan; LLVM JIT under valgrind memcheck",
+        text="~10k kernel executions per quick run (evaluate, assemble, compute-after-assemble; capacities 1..16 and default) are observed access by access; a sample of the same cases runs as emitted C under ASan+UBSan and as JIT code under valgrind.",
+        note="Abstract machine = our reading of the IR's C semantics (validated three-way against both back ends in C06). Termination is a step budget. Near-2^31 sizes are out of reach.",
+        design="3/C05",
+    ),
 }
 
 PENDING = {
